@@ -24,6 +24,8 @@ DECIDED_R6 = ('Round 6: a node is folded into its child only for exactly one chi
 DECIDED = DECIDED + ' ' + DECIDED_R6
 DECIDED_R7 = ("Round 7: remove(hooks_only=True) leaves a route alone; route name bound after the last rejecting call; no slot cleared after a merge; registered Route fresh or the tree's.")
 DECIDED = DECIDED + ' ' + DECIDED_R7
+DECIDED_R8 = ('Round 8: the hook prefix is cut from the routed string; the routes index is filtered by the prefix the tree was cut at; the named route is the route _add returns.')
+DECIDED = DECIDED + ' ' + DECIDED_R8
 NOT_DECIDED = ('equality with a freshly built router over all edit histories (correctness of node splitting / merging beyond '
                'the pairing rules); prefix-wildcard removal of hooks (specified for routes only).')
 ASSUMPTIONS = ['list/dict operations behave as in CPython']
@@ -294,6 +296,7 @@ def check(P, R):
              f'`{short(n.ast)}` also runs when only hooks are installed on an existing node: the parameter names of the route registered there are replaced by the hook '
              f'rule\'s names (/user/:id + hook on /user/:uid -> handler gets uid), and removing the hook does not restore them',
              why='survivors are intact: the edited router answers like one freshly built from the surviving routes and hooks', key_extra='params-only-with-data')
+    check_data_with_params(P, R, 'C11.d', 'a route mounted on a node is mounted with its wildcard names: the edited router answers like a freshly built one')
     # a lookup answers from the tree; if it keeps answers (a memo on the router), every operation that edits the tree drops them
     rcls = P.cls(f'{RR}:RadiRouter')
     rs_ = rcls.methods.get('resolve')
@@ -450,6 +453,49 @@ def check_name_after_registration(P, R, rid):
              why='a rejected registration leaves the router as it was', key_extra='name-before-reject')
 
 
+def check_data_with_params(P, R, rid, why):
+    """wherever `_set` stores a route (the DATA slot) on a node it stores the rule's wildcard names (PARAMS) on every path from there to the end: a node that
+    carries a route without its names matches, and hands the handler no parameters"""
+    st_ = P.func(f'{RD}:RadiDict._set')
+    sg = st_.cfg
+    from . import c01 as _c01
+
+    def slot_store(n, slot):
+        if n.kind != 'stmt' or not isinstance(n.ast, ast.Assign):
+            return False
+        for t in n.ast.targets:
+            if isinstance(t, ast.Subscript) and _c01.slot_name(t) == slot:
+                return True
+        return False
+    pstores = [n for n in sg.nodes if slot_store(n, 'PARAMS')]
+    dstores = [n for n in sg.nodes if slot_store(n, 'DATA')]
+    # the generic form `node[item_idx] = item` inside the loop over [(DATA, data), (HOOKS, hooks)] counts as a DATA store
+    for n in sg.nodes:
+        if n.kind == 'stmt' and isinstance(n.ast, ast.Assign) and any(isinstance(t, ast.Subscript) and isinstance(t.slice, ast.Name) and st_.rd.is_local(t.slice.id) for t in n.ast.targets):
+            lp = [l for l in T.loops_of(n.ast) if isinstance(l, ast.For)]
+            if lp and 'DATA' in src(lp[0].iter):
+                dstores.append(n)
+    for n in dstores:
+        ok = bool(pstores) and not sg.can_reach(n, sg.exit, avoid_nodes=pstores, labels_skip=('exc',)) if n not in pstores else True
+        # (the PARAMS store is itself guarded by `data is not None`: a path on which data is None stores no route - ignore exits reached only that way)
+        if not ok:
+            dpar = 'data' if 'data' in st_.params else None
+            guards = [t for t in sg.nodes if t.kind == 'test' and t.ast is not None and dpar and any(
+                isinstance(x, ast.Compare) and isinstance(x.left, ast.Name) and x.left.id == dpar and isinstance(x.ops[0], (ast.IsNot, ast.Is)) and is_const(x.comparators[0], None)
+                for x in ast.walk(t.ast))]
+            avoid_e = set()
+            for t in guards:
+                none_label = 'false' if any(isinstance(x, ast.Compare) and isinstance(x.ops[0], ast.IsNot) for x in ast.walk(t.ast)) else 'true'
+                avoid_e.add((t, none_label))
+            ok = bool(pstores) and not sg.can_reach(n, sg.exit, avoid_nodes=pstores, avoid_edges=avoid_e, labels_skip=('exc',))
+        R.ob(rid, st_, n.ast, ok, text=f'`{short(n.ast)}` is followed by the store of the rule\'s wildcard names on every path', detail='' if ok else
+             f'after `{short(n.ast)}` the function can end without storing PARAMS on the node: a rule mounted on that path (e.g. one that ends inside the literal key of an '
+             f'existing node, which is split for it) matches with an empty name list - the handler gets no parameters, and url() built from the match fails',
+             why=why, key_extra='data-with-params')
+    if not dstores:
+        R.undecided(rid, st_, st_.node, 'RadiDict._set', 'no store of the DATA slot found')
+
+
 def check_named_is_mounted(P, R, rid):
     """the Route bound to a name is the one `_add` returns - the mounted object (the tree's own when the rule was already there), not the freshly parsed one"""
     f = P.func(f'{RR}:RadiRouter._add')
@@ -457,6 +503,24 @@ def check_named_is_mounted(P, R, rid):
     stores = [st for st in walk_shallow(f.node) if isinstance(st, ast.Assign) and any(
         isinstance(t, ast.Subscript) and dotted(t.value) == 'self.named_routes' for t in st.targets)]
     rets = [n for n in g.nodes if n.kind == 'stmt' and isinstance(n.ast, ast.Return) and isinstance(n.ast.value, ast.Name)]
+    # ... and the object the handlers were registered on
+    regs = [c for c in walk_shallow(f.node) if isinstance(c, ast.Call) and call_attr(c) in ('add_method', 'set_method') and isinstance(c.func.value, ast.Name)]
+    for st in stores:
+        if not isinstance(st.value, ast.Name):
+            continue
+        sn = g.node_of_stmt(st)[0]
+        for c in regs:
+            cn = g.node_of_stmt(c)[0]
+            if not (g.can_reach(cn, sn) or g.can_reach(sn, cn)):
+                continue
+            same = c.func.value.id == st.value.id and rd.same_defs(cn, sn, st.value.id)
+            if not same:
+                a_, b_ = rd.root_defs(cn, c.func.value.id), rd.root_defs(sn, st.value.id)
+                same = bool(a_) and {id(x_) for x_ in a_} == {id(x_) for x_ in b_}
+            R.ob(rid, f, st, same, text=f'`{short(st)}`: the named route is the object `{short(c)}` registered the handlers on', detail='' if same else
+                 f'`{short(c)}` registers the handlers on `{c.func.value.id}`, `{short(st)}` binds the name to `{st.value.id}` - another object when the rule was already '
+                 f'mounted: removing a method (or re-registering) through router[name] acts on a Route that is not in the tree, and the mounted one keeps answering',
+                 why='lookups by name and by rule agree', key_extra=f'named-is-registered:{short(c, 30)}')
     for st in stores:
         if not isinstance(st.value, ast.Name) or not rets:
             continue
@@ -653,6 +717,17 @@ def check_pairing(P, R):
              'on some path (removal by name or by route object) other names registered for the removed route survive in '
              'named_routes: router[name] returns a route that no longer resolves',
              why='lookups by name and by rule agree with a freshly built router', key_extra='names')
+    # ... and the other way round: whatever leaves the routes index has left the tree (removal by name / by route object included)
+    tree_rm = [g.node_of_stmt(c)[0] for c in rms]
+
+    def _drops(a_):
+        return (isinstance(a_, ast.Delete) and 'self.routes[' in src(a_)) or any(isinstance(x, ast.Call) and dotted(x.func) == 'self.routes.pop' for x in walk_shallow(a_))
+    for m in [m for m in g.nodes if m.kind == 'stmt' and m.ast is not None and _drops(m.ast)]:
+        ok = not (g.can_reach(g.entry, m, avoid_nodes=tree_rm) and g.can_reach(m, g.exit, avoid_nodes=tree_rm, labels_skip=('exc',)))
+        R.ob('C11.d', rm, m.ast, ok, text=f'`{short(m.ast)}` <-> the rule leaves the tree on every path through it', detail='' if ok else
+             f'`{short(m.ast)}` drops the rule from the routes index on a path that never calls radidict.remove: the rule stays mounted - resolve() keeps dispatching to a '
+             f'route that was removed (by name, or by its Route object)',
+             why='removed routes are gone', key_extra='index-without-tree')
     # prefix removal: the names are dropped for exactly the set of patterns dropped from the routes index
     for comp in [x for x in walk_shallow(rm.node) if isinstance(x, (ast.ListComp, ast.For))]:
         pops_ = [c for c in ast.walk(comp) if (isinstance(c, ast.Call) and dotted(c.func) == 'self.routes.pop') or
